@@ -33,6 +33,14 @@ CLAIMS.update({
         ref="3/C15"),
 })
 
+CLAIMS.update({
+    "C10": dict(
+        text="Static, sufficient condition for the whole statement: behaviour of a connection is a function of its 35 fields and inputs; every non-configuration field is proved (abstract post-values on all paths of notify_closed, the connect prefix and every new-session path; in-crate clear/reset methods proved field-wise equal to new()) to hold its initial or an input-derived value, so a reused object is field-wise equal to a fresh one.",
+        note=TB + "Residual trust: the field scope table spec/field_scope.json (which fields are configuration); HashSet/IndexMap iteration order (release order within one call) is outside the abstraction.",
+        technique="reset-equivalence: abstract post-state vs constructor state on all MIR paths + who-may-write scan",
+        ref="3/C10"),
+})
+
 NOT_APPLICABLE = {
     "C20": "Refinement of a set model over all operation sequences plus the sorted/disjoint/merged representation invariant of a BTreeSet<ValueInterval> with a non-standard Ord: needs an inductive data-structure invariant no static abstract domain in reach expresses; a syntactic proxy would fire on behaviour-preserving rewrites. The out-of-range query clause is decided under C08-R5.",
 }
